@@ -61,6 +61,11 @@ def problem(rng, mals=False):
     A, kind = hpd_operator(rng, dims, cplx)
     with probe.oracle():
         b = gen.rand_tt(rng, dims, [1] * d, gen.rand_ranks(rng, d, 3), cplx and rng.random() < 0.8)
+        if rng.random() < (0.3 if d > 1 else 0.6):  # operator (and right-hand side) cores in other memory layouts: Fortran order (what LAPACK / SciPy
+            A = gen.relayout_tt(rng, A)  # hand back and what lets LAPACK work in place), strided and offset views
+            if rng.random() < 0.5:
+                b = gen.relayout_tt(rng, b)
+            kind += '/relayout'
     return A, b, dims, cplx, kind
 
 
@@ -131,8 +136,8 @@ def w_solve(ctx, rng, idx):
         # every combination of the cap with the other truncation setting (threshold 0 switches the relative cut off entirely,
         # the cap must still apply), from every kind of guess and for more than one sweep
         for thr in (0, 1e-12, None):
-            mr = int(rng.integers(1, 4))
-            kw2 = {'solver': solver, 'max_rank': mr, 'repeats': int(rng.integers(1, 3))}
+            mr = gen.as_int(rng, int(rng.integers(1, 4)))  # (also NumPy integer scalar types: the cap is a number, whatever its type)
+            kw2 = {'solver': solver, 'max_rank': mr, 'repeats': gen.as_int(rng, int(rng.integers(1, 3)), p=0.15)}
             if thr is not None:
                 kw2['threshold'] = thr
             call('sle.mals', sle.mals, A, g, b, prop=P, tags=tags + ['capped', 'threshold=%s' % thr], refusals=(np.linalg.LinAlgError,), **kw2)
